@@ -9,7 +9,7 @@
     start/end line/column statements for tokens and errors are tested by the check's oracle. *)
 From Coq Require Import NArith List.
 From SasLexer Require Import Gen.TokenType Gen.ErrorKind Gen.Channel Model.Base Model.Core Model.Buffer
-     Model.Lexer3 Spec.RefLex Proofs.Generic Proofs.Lines Proofs.LexLines Proofs.OcAll Proofs.MacroFree.
+     Model.Lexer3 Spec.RefLex Proofs.Generic Proofs.Lines Proofs.LexLines Proofs.TokLines Proofs.OcAll Proofs.MacroFree.
 Import ListNotations.
 Open Scope N_scope.
 
@@ -45,6 +45,35 @@ Theorem C04_macro_free_line_table : forall (msep : bool) (src : list char),
 Proof. exact mf_C04_macro_free_line_table. Qed.
 Print Assumptions C04_macro_free_line_table.
 
+(** Start lines of tokens.  For every input and both profiles: if the run returns with the monitor
+    on and its EOF token in place, the line index stored in every token of the returned buffer is
+    the number of line feeds of the source before the token's start byte (the accessor reports
+    one plus that index).  Behind it: an invariant of every program over the primitives
+    ([C04_every_program_token_lines]) - every token of the work buffer, the current-token fields, a
+    pending mark and a live checkpoint carry the right line as long as the monitor is on. *)
+Theorem C04_token_lines : forall (cfg : config) (src : list char),
+  lr_outcome (lex cfg src) = None ->
+  g_lines_ok (s_ghost (lr_state (lex cfg src))) = true ->
+  match w_toks (s_buf (lr_state (lex cfg src))) with t :: _ => tt_eqb (t_type t) T_EOF | [] => false end = true ->
+  forall t, In t (b_toks (lr_buffer (lex cfg src))) ->
+  forall pre rest, src = pre ++ rest -> blen pre = t_byte t -> t_line t = count_nl pre.
+Proof. exact lex_token_lines. Qed.
+Print Assumptions C04_token_lines.
+
+(** ... with the premises discharged on macro-free texts (release profile) *)
+Theorem C04_macro_free_token_lines : forall (msep : bool) (src : list char),
+  macro_free (body_of src) = true ->
+  forall t, In t (b_toks (lr_buffer (lex (mkCfg false msep) src))) ->
+  forall pre rest, src = pre ++ rest -> blen pre = t_byte t -> t_line t = count_nl pre.
+Proof. exact mf_C04_macro_free_token_lines. Qed.
+Print Assumptions C04_macro_free_token_lines.
+
+Theorem C04_every_program_token_lines : forall first src (d : bool) (A : Type) (p : prog A) (s : st),
+  InvPos src s -> LInv first src s -> TLInv src s ->
+  match run d p s with Done _ s' => TLInv src s' | Panic _ _ => True end.
+Proof. intros. apply (run_TLInv first); assumption. Qed.
+Print Assumptions C04_every_program_token_lines.
+
 (** the invariant behind it holds for every program over the primitives *)
 Theorem C04_every_program : forall first src (d : bool) (A : Type) (p : prog A) (s : st),
   InvPos src s -> LInv first src s ->
@@ -59,6 +88,15 @@ Example c04_example :
   let r := lex (mkCfg true false) src in
   (lr_outcome r, g_lines_ok (s_ghost (lr_state r)), g_line_debt (s_ghost (lr_state r)), c_rest (s_cur (lr_state r)))
   = (None, true, false, []) /\ map l_byte (b_lines (lr_buffer r)) = [0; 3; 8; 12].
+Proof. vm_compute. split; reflexivity. Qed.
+
+(** token lines on the same text: premises hold, and the line indices are as the theorem says *)
+Example c04_token_lines_example :
+  let src := [47; 42; 10; 42; 47; 39; 97; 10; 39; 37; 109; 10; 120; 59] in
+  let r := lex (mkCfg true false) src in
+  (lr_outcome r, g_lines_ok (s_ghost (lr_state r)),
+   match w_toks (s_buf (lr_state r)) with t :: _ => tt_eqb (t_type t) T_EOF | [] => false end) = (None, true, true) /\
+  map (fun t => (t_byte t, t_line t)) (b_toks (lr_buffer r)) = [(0, 0); (5, 1); (9, 2); (11, 2); (12, 3); (13, 3); (14, 3)].
 Proof. vm_compute. split; reflexivity. Qed.
 
 (** ... and a macro-free text with line feeds in whitespace, a comment, a string, a datalines body *)
